@@ -21,6 +21,11 @@ def main():
     path = sys.argv[1]
     search = int(sys.argv[sys.argv.index('--search') + 1]) if '--search' in sys.argv else 0
     doc = json.load(open(path))
+    # the replay must run the tree the verification conditions came from, never another installed copy of the package
+    import crysp
+    want = os.path.realpath(os.environ.get('PYVC_REPO', '/repo'))
+    if not os.path.realpath(crysp.__file__).startswith(want + os.sep):
+        print(json.dumps({'outcome': 'error', 'stderr': 'replay would import crysp from %s, not from %s' % (crysp.__file__, want)})); return 2
     from pyvc import oblig
     ob = find(doc['property'], doc['obligation'])
     if ob is None:
